@@ -178,6 +178,33 @@ func GenSpec(r *vh.Rng) Spec {
 			spec.Tiers[i] = []Plug{}
 		}
 	}
+	// scripted faults: Statement.Pipeline fails for some (pending task, node) placements, so that the
+	// action has to roll a node attempt back and go on with the next node; cache.Evict refusals
+	if r.Chance(2, 5) {
+		for _, t := range spec.Tasks {
+			if t.Status != sched.SPending || !r.Chance(1, 2) {
+				continue
+			}
+			switch {
+			case nn >= 2 && r.Chance(1, 3): // every node but one
+				keep := int64(r.Range(1, nn))
+				for n := int64(1); n <= int64(nn); n++ {
+					if n != keep {
+						spec.Faults = append(spec.Faults, [2]int64{t.ID, n})
+					}
+				}
+			default:
+				spec.Faults = append(spec.Faults, [2]int64{t.ID, int64(r.Range(1, nn))})
+			}
+		}
+	}
+	if r.Chance(1, 4) {
+		for _, t := range spec.Tasks {
+			if (t.Status == sched.SRunning || t.Status == sched.SBound) && r.Chance(1, 3) {
+				spec.Refuse = append(spec.Refuse, t.ID)
+			}
+		}
+	}
 	return spec
 }
 
